@@ -32,7 +32,7 @@ func (s Step) String() string {
 	case "joinrejected":
 		return fmt.Sprintf("rejected-join(r%d<-copy-of-r%d+%d valid+1 %s entry)", s.R, s.S, s.PC, s.Payload)
 	case "fork":
-		return fmt.Sprintf("fork(r%d:=NewLog(entries of r%d, %s))", s.R, s.S, []string{"heads given", "heads + CLOCK object of the source", "heads nil", "heads empty non-nil slice", "heads given, SAME entries map object as the previous fork of this source"}[s.PC%5])
+		return fmt.Sprintf("fork(r%d:=NewLog(entries of r%d, %s))", s.R, s.S, []string{"heads given", "heads + CLOCK object of the source", "heads nil", "heads empty non-nil slice", "heads given, SAME entries map object as the previous fork of this source", "ONE of the source's heads given (the log holds entries that are not behind its heads)"}[s.PC%6])
 	case "jointruncated":
 		return fmt.Sprintf("join(r%d<-load of the newest %d entries of r%d)", s.R, s.PC, s.S)
 	case "joinalien":
@@ -93,6 +93,7 @@ type GenOpts struct {
 	Bursts      bool // also generate concurrent bursts on one replica (appends || merges || reads)
 	Failures    bool // also generate refused operations (denied appends, rejected merges) and forks
 	Extra       bool // also generate setident / reload steps (C04)
+	SubsetForks bool // with Failures: forks opened with only ONE of the source's heads (C05: such a log holds entries outside the ancestry of its heads; nothing may vanish from it)
 	HugeOften   bool // with Failures: half of the histories (not an eighth) have replicas whose clocks start at 2^60
 	Hostile     bool // with Failures: also merges of logs that hold a validly signed entry of ANOTHER log id in the middle of their history (C02, C03; the loaders do not filter by log id, so monitors that rebuild logs from storage do not use it)
 	MaxSteps    int
@@ -216,7 +217,14 @@ func Gen(seed int64, idx int, o GenOpts) *History {
 				if h.Replicas > 2 {
 					tgt := (s.R + 1 + rng.Intn(h.Replicas-1)) % h.Replicas
 					v := rng.Intn(4)
+					if o.SubsetForks && rng.Intn(3) == 0 {
+						v = 5
+					}
 					h.Steps = append(h.Steps, Step{Op: "fork", R: tgt, S: s.R, PC: v})
+					if v == 5 {
+						// a merge that brings nothing must leave such a log as it is
+						h.Steps = append(h.Steps, Step{Op: "joinempty", R: tgt})
+					}
 					if h.Replicas > 3 && rng.Intn(2) == 0 {
 						// a second replica opened from the very same entries map object
 						t2 := (tgt + 1) % h.Replicas
@@ -841,7 +849,11 @@ func (x *Exec) Do(i int) StepResult {
 		lo := x.W.LogOpts(x.W.LogID)
 		lo.Entries = src.GetEntries()
 		lo.Heads = src.Heads().Slice()
-		switch s.PC % 5 {
+		switch s.PC % 6 {
+		case 5:
+			if len(lo.Heads) > 1 {
+				lo.Heads = lo.Heads[:1]
+			}
 		case 1:
 			lo.Clock = src.Clock // continue with the source's clock object (minted by the source's writer)
 		case 2:
